@@ -30,7 +30,7 @@ PRACTICE = os.path.join(core.REPO, "tests", "practice")
 VOCAB = (["mov", "clr", "br", "sob", "jsr", "rts", "emt", "mul", "ldf", "stf", "push", ".word", ".byte", ".ascii", ".asciz", ".rad50", ".blkb", ".even", ".align",
           ".repeat", ".include", ".link", ".end", ".once", ".extern", "all", ".error", ".title", "make_bin", "make_wav", "insert_file", ".dword", "r0", "r7", "sp",
           "pc", "ac0", "ac5", "%", "^C", "^R", "^X", "^B"] + list(", : = ( ) < > { } # @ % ^ ' \" / \\ ; . + - * ! | & _ $".split(" ")) + ["<<", ">>", "==", "::", "\n", "\t", " "])
-ALPHABET = "abxyzRQ_$.,:;=()<>{}#@%^'\"/\\+-*!|&~ \t\n\x00éЖ€"
+ALPHABET = "abxyzRQ_$.,:;=()<>{}#@%^'\"/\\+-*!|&~ \t\n\x00éЖ€\r\f\v\xa0\u2028\x85\x1c"
 
 TOKEN = re.compile(r"[A-Za-z_$.][A-Za-z_0-9$.]*|\d[A-Za-z_0-9$.]*|<<|>>|==|::|\s+|.", re.S)
 
@@ -148,15 +148,26 @@ def classify(files, outs, charset="bk"):
             return (f"{out.kind}", f"{out.kind}: reports {[(r[0], r[1]) for r in out.reports][:5]}"), out.kind
     if any(o.kind == "timeout" for o in outs):
         text = "\n".join(t for _, t in files)
-        if len(PADS.findall(text)) > 10 or re.search(r"\.repeat", text, re.I):
+        stack = next((o.exc[2] for o in outs if o.kind == "timeout" and o.exc and isinstance(o.exc[2], list)), [])
+        in_repeat = ("metacommands.py", "repeat") in stack          # a finite range() loop is running
+        in_lazy = any(f == "deferred.py" for f, _ in stack[-6:])
+        if in_repeat or (in_lazy and len(PADS.findall(text)) > 10):
             return None, "inconclusive-slow-finite"
-        # confirm in a fresh process with a generous limit
+        # confirm in a fresh process with a generous limit - once per shard: every further watchdog hit behind a confirmed hang is
+        # only counted (re-confirming each one, also while shrinking, would cost more than a minute apiece)
+        if _hang_confirmed[0]:
+            _hang_confirmed[0] += 1
+            return None, "inconclusive-after-confirmed-hang"
         if confirm_hang(files, charset):
+            _hang_confirmed[0] = 1
             return ("hang", "no result within 60 s in a fresh process"), "hang"
         return None, "inconclusive-slow"
     if outs[0].kind != outs[1].kind:
         return ("handler-dependent", f"bare handler: {outs[0].kind}, graphical handler: {outs[1].kind}"), "handler-dependent"
     return None, outs[0].kind
+
+
+_hang_confirmed = [0]
 
 
 def confirm_hang(files, charset):
@@ -240,6 +251,11 @@ def run_shard(spec, ctx):
     strat = g_case() if spec["part"] == "G" else corpus_case()
 
     def check(case):
+        if _hang_confirmed[0] > 4:
+            # a hang is confirmed and recorded; every further hanging case would cost 10 s of watchdog time: the rest of this
+            # shard's budget is only counted
+            ctx.exclude("skipped-after-confirmed-hang")
+            return None
         res, label, outs = judge(case)
         text = "\n".join(case["texts"])
         lines = [l for l in text.split("\n") if l.strip()]
